@@ -32,7 +32,11 @@ CLAIMS = {
          "SubjectThreads: a lock-level model with the shared state (Ileave.v) is run against real threads under explicit schedules - every "
          "schedule with <= 3 context switches for 15 sets of 2-3 thread scripts plus random ones, each thread parked before every mutex "
          "through a hook - compared acquisition by acquisition and judged by exactly-once / common order / nothing lost / nothing after "
-         "unsubscribe; the statements for ALL schedules are theorems over that model (see C10).", "DESIGN.md section 5 C06"),
+         "unsubscribe. For ALL schedules, any number of threads and any scripts, over that model: C06_threads_values (nothing invented), "
+         "C06_threads_once_in_common_order (each emission at most once per subscriber, all subscribers in one common order), "
+         "C06_threads_terminal_is_last, C06_threads_nothing_after_unsubscribe (hypotheses: probe names subscribed once; an unsubscription "
+         "names a probe subscribed by the setup or earlier in the same script - both evaluated on every generated case). 'Exactly those "
+         "subscribers that subscribed before the emission began' under concurrency is judged on the explored schedules, not proved.", "DESIGN.md section 5 C06"),
  "C12": ("Theorems C12_behavior_refines / C12_value_is_latest / C12_hands_latest: for every sequential history of next / next_by / clone / "
          "subscribe / unsubscribe / peek / complete / error (any length), the subject-plus-value-cell model equals the abstract 'multicast "
          "set + most recent value'; the stored value is the last one passed to next/next_by through any handle (or the initial one); a new "
@@ -112,7 +116,8 @@ CLAIMS = {
          "14 timed operators with all tasks polled in random orders afterwards, every single-input operator, the 8 combinators with all "
          "interleavings, the flattening operators with hot inner observables emitting afterwards; traces judged by 'nothing after the "
          "unsubscribe' and compared with the model. On the pinned tree throttle with a trailing edge delivered after unsubscribe (fixed, "
-         "50c4f28). The _threads clause: an unsubscribing thread against emitting threads on SubjectThreads under every schedule with <= 3 "
+         "50c4f28). The _threads clause: C02_threads_subject (lock-level model of SubjectThreads, ANY schedule: no call of a subscriber after its "
+         "unsubscribe() returned); an unsubscribing thread against emitting threads on SubjectThreads under every schedule with <= 3 "
          "context switches (lock-level model Ileave.v against real threads parked before every mutex), judged by 'no call of the subscriber "
          "after its unsubscribe() returned'; likewise an unsubscribing thread against emitting threads on the two-input _threads operators, "
          "merge_all_threads and finalize_threads. share()/ref_count is decided under C11.", "DESIGN.md section 5 C02"),
@@ -138,7 +143,9 @@ CLAIMS = {
          "buffer_with_count_and_time, interval, interval_at, timer between a hot input and the subscriber, EVERY label sequence - polls in any "
          "order, input events after its terminal, late timers) and C01_timed_predicates_imply_grammar (every trace accepted by the predicates "
          "that judge the implementation under C02 / C07-C09 has the shape); they are single nodes, not composed into the trees.", "DESIGN.md section 5 C01"),
- "C10": ("Theorems over a lock-level model (threads = programs of lock / unlock / enter-callback / leave-callback actions, any schedule): "
+ "C10": ("Theorems over the stateful lock-level model of SubjectThreads / BehaviorSubject (Ileave.v), any number of threads, any scripts, ANY "
+         "schedule at mutex granularity: C10_subject_never_stuck / C10_subject_no_deadlock (in every configuration some unfinished thread can "
+         "move), C10_subject_no_panic, C10_subject_callbacks_exclusive, C10_subject_common_order. Theorems over a discipline-level model (threads = programs of lock / unlock / enter-callback / leave-callback actions, any schedule): "
          "C10_no_deadlock (programs that lock only upwards in the rank order upstream -> downstream, observer list -> chamber -> subscriber "
          "cells, and unlock in reverse order never deadlock: any number of threads, any programs, any schedule), C10_callbacks_are_exclusive "
          "(no subscriber's callback is ever running on two threads), C10_subject_next_disciplined (for any number of subscribers) / "
@@ -154,7 +161,7 @@ CLAIMS = {
          "zip_threads, combine_latest_threads, with_latest_from_threads, take_until_threads, skip_until_threads, sample_threads, "
          "merge_all_threads(1|2|unbounded) and finalize_threads pipelines with 2-3 threads, an unsubscribing one included (deadlock, panic, "
          "a call that does not return, overlap, grammar, silence after unsubscribe; two-input operators tied to the sequential model by "
-         "linearizability). PARTIAL: the lock-level model with theorems for all schedules covers the subjects; share, observe_on and delay "
+         "linearizability). PARTIAL: the stateful model with theorems for all schedules covers the subjects; share, observe_on and delay "
          "pipelines are covered by the stress runs and the general theorems only; the lost-wake-up clause is C14_no_lost_wakeup.", "DESIGN.md section 5 C10"),
  "C11": ("Theorems (share / publish built on the subject machine of C06, upstream a counted subscription and a tap): "
          "C11_source_subscribed_at_most_once (any history, any number of subscribers, hot or cold source), C11_nothing_before_connection "
